@@ -21,7 +21,9 @@ from .. import lazyinst as L
 
 NAME = "trace"
 MODES = ["diff", "edited", "exhaust", "contexts"]
-MAX_STEPS = 60000
+import os as _os
+_MULT = int(_os.environ.get("VERIF_LIMIT_MULT", "1"))     # the engine re-runs a watchdog hit with generous limits
+MAX_STEPS = 60000 * _MULT
 
 
 # ------------------------------------------------------------------------------------------------ generation
@@ -363,7 +365,7 @@ def has_dup_mset(x):
 
 def impl(case):
     try:
-        with L.time_limit(12):
+        with L.time_limit(12 * _MULT):
             return _impl(case)
     except L.Timeout:
         return {"err": "timeout", "hits": [], "stats": {}, "steps": 0, "root": [], "md": []}
@@ -506,6 +508,8 @@ def monitor(case, obs):
     if obs.get("err"):
         k = obs["err"].split(":")
         hit("no-termination" if k[0] in ("step-limit", "timeout") else "internal-error:" + k[1], obs["err"])
+        if k[0] in ("step-limit", "timeout"):
+            return out       # the run was cut short by a harness limit: what the other monitors see is an aborted state
     for key, what in obs.get("hits", []):
         hit(key, what)
     rh = []
